@@ -10,7 +10,10 @@ import (
 
 	"golang.org/x/text/language"
 
+	"seehuhn.de/go/postscript/funit"
 	"seehuhn.de/go/sfnt/glyph"
+	"seehuhn.de/go/sfnt/opentype/anchor"
+	"seehuhn.de/go/sfnt/opentype/coverage"
 	"seehuhn.de/go/sfnt/opentype/gdef"
 	"seehuhn.de/go/sfnt/opentype/gtab"
 
@@ -237,8 +240,18 @@ func c07seq(r *rand.Rand, hot []glyph.ID, maxLen int) []glyph.ID {
 // c07input: every glyph carries one unique rune; GPOS inputs carry a width.
 func c07input(gids []glyph.ID, gpos bool, gd *gdef.Table) []glyph.Info {
 	seq := make([]glyph.Info, len(gids))
+	// in a third of the inputs the texts are pieces of one array, as a caller
+	// gets them from []rune(s) (every piece has the rest in its capacity)
+	var shared []rune
+	if len(gids) > 0 && (len(gids)+int(gids[0]))%3 == 0 {
+		shared = make([]rune, len(gids))
+	}
 	for i, gid := range gids {
 		seq[i] = glyph.Info{GID: gid, Text: []rune{rune(0x4E00 + i)}}
+		if shared != nil {
+			shared[i] = rune(0x4E00 + i)
+			seq[i].Text = shared[i : i+1]
+		}
 		if gpos && !gd.IsMark(gid) {
 			seq[i].Advance = 500
 		}
@@ -518,6 +531,36 @@ func runC07(c *mon.Ctx) {
 		g := &otlmini.Gen{R: r, A: alpha, WildFlags: true, MaxSeq: 2 + r.IntN(4), MaxNested: 1 + r.IntN(4)}
 		kind := allKinds[r.IntN(len(allKinds))]
 		list := g.GenList(kind, otlmini.FlagSet(r.IntN(int(otlmini.NumFlagSets))), 1+r.IntN(4), 1+r.IntN(3), r.IntN(3) == 0)
+		if list.Gpos && r.IntN(4) == 0 {
+			// cursive attachment (GPOS 3) is outside the reference model of C06
+			// but inside this property: any flag set, entry and exit anchors
+			// present or not
+			all := alpha.All() // (a fixed order)
+			picked := map[glyph.ID]bool{}
+			for i := 0; i < 2+r.IntN(5); i++ {
+				picked[all[r.IntN(len(all))]] = true
+			}
+			var keys []glyph.ID
+			for gid := range picked {
+				keys = append(keys, gid)
+			}
+			sort.Slice(keys, func(i, j int) bool { return keys[i] < keys[j] })
+			cov := coverage.Table{}
+			var recs []gtab.EntryExitRecord
+			anc := func() anchor.Table {
+				if r.IntN(4) == 0 {
+					return anchor.Table{}
+				}
+				return anchor.Table{X: funit.Int16(r.IntN(601) - 300), Y: funit.Int16(r.IntN(601) - 300)}
+			}
+			for i, gid := range keys {
+				cov[gid] = i
+				recs = append(recs, gtab.EntryExitRecord{Entry: anc(), Exit: anc()})
+			}
+			list.LL = append(list.LL, &gtab.LookupTable{Meta: g.Meta(3, otlmini.FlagSet(r.IntN(int(otlmini.NumFlagSets)))),
+				Subtables: []gtab.Subtable{&gtab.Gpos3_1{Cov: cov, Records: recs}}})
+			k.Class("mutated:with-cursive-attachment")
+		}
 		nMut := r.IntN(5)
 		var mut func([]byte) []byte
 		if nMut > 0 {
